@@ -19,6 +19,7 @@ import (
 	"syscall"
 	"testing"
 	"time"
+	"unicode/utf8"
 
 	"github.com/tidwall/tile38/verif/harness/ev"
 	"github.com/tidwall/tile38/verif/harness/gen"
@@ -213,6 +214,14 @@ func init() {
 			},
 		},
 		knownCrash{
+			id:   "crash-metrics-non-utf8-key",
+			what: "server started with --metrics-addr; SET \"fleet\\xff\" a POINT 1 1, then GET /metrics: Collect passes the key as a label value to prometheus.MustNewConstMetric, which panics on invalid UTF-8 on a goroutine of the registry; the process exits (and again at the first scrape after every restart)",
+			cmds: [][]string{{"SET", "fleet\xff", "a", "POINT", "1", "1"}},
+			match: func(a []string) bool {
+				return len(a) > 1 && !utf8.ValidString(a[1])
+			},
+		},
+		knownCrash{
 			id:   "crash-eval-huge-numkeys",
 			what: "EVAL script 100000000000000: numkeys is passed unchecked to luaState.CreateTable (scripts.go:446) -> makeslice: len out of range (or out of memory for merely large values); the process exits",
 			cmds: [][]string{{"EVAL", "return 1", "100000000000000"}},
@@ -249,18 +258,21 @@ type crashRec struct {
 }
 
 type guard struct {
-	c           *ev.Collector
-	p           *t38.Proc
-	by          *t38.Conn
-	ctl         *t38.Conn
-	want        t38.Value
-	crashes     map[string]*crashRec
-	restarts    int
-	inputs      int // since last start
-	restartTime time.Duration
-	last        fuzzInput
-	noAOF       bool // child runs with --appendonly no
-	readonly    bool // the server was switched to read-only: the bystander does not write
+	c            *ev.Collector
+	p            *t38.Proc
+	by           *t38.Conn
+	ctl          *t38.Conn
+	want         t38.Value
+	crashes      map[string]*crashRec
+	restarts     int
+	inputs       int // since last start
+	restartTime  time.Duration
+	last         fuzzInput
+	noAOF        bool // child runs with --appendonly no
+	metricsAddr  string
+	scrapes      int
+	alwaysScrape bool
+	readonly     bool // the server was switched to read-only: the bystander does not write
 }
 
 var (
@@ -295,6 +307,7 @@ func wrapServerBin() {
 }
 
 var wrappedBin, wrappedNoAOFBin string
+var guardSeq int
 
 func stopProc() {
 	for _, g := range liveGuards {
@@ -327,8 +340,20 @@ func (g *guard) start() error {
 	var err error
 	for attempt := 0; attempt < 3; attempt++ {
 		// t38.Opts has no switch for the aof; the wrapper script adds the flag
-		if g.noAOF && wrappedNoAOFBin != "" {
-			os.Setenv("VERIF_SERVER_BIN", wrappedNoAOFBin)
+		// and a Prometheus listener, scraped by the bystander
+		extra := ""
+		if g.noAOF {
+			extra += " --appendonly no"
+		}
+		g.metricsAddr = "127.0.0.1:" + strconv.Itoa(t38.FreePort())
+		extra += " --metrics-addr " + g.metricsAddr
+		if realServerBin != "" {
+			guardSeq++
+			sh := filepath.Join(t38.WorkDir(), fmt.Sprintf("c16-server-%d-%d.sh", os.Getpid(), guardSeq))
+			script := "#!/bin/sh\nulimit -v 4000000\nulimit -c 0\nexec \"" + realServerBin + "\"" + extra + " \"$@\"\n"
+			if err := os.WriteFile(sh, []byte(script), 0o755); err == nil {
+				os.Setenv("VERIF_SERVER_BIN", sh)
+			}
 		}
 		g.p, err = t38.StartProc(t38.Opts{HTTP: true})
 		if wrappedBin != "" {
@@ -396,6 +421,35 @@ type verdict struct {
 	bystander string // "" = fine, otherwise what went wrong with the bystander while the process lived
 }
 
+// scrapeMetrics does GET /metrics; "" when answered 200 with a body.
+func scrapeMetrics(addr string) string {
+	c, err := net.DialTimeout("tcp", addr, 5*time.Second)
+	if err != nil {
+		return "dial: " + err.Error()
+	}
+	defer c.Close()
+	c.SetDeadline(time.Now().Add(bystanderBudget))
+	if _, err := c.Write([]byte("GET /metrics HTTP/1.1\r\nHost: x\r\nConnection: close\r\n\r\n")); err != nil {
+		return "write: " + err.Error()
+	}
+	var resp []byte
+	buf := make([]byte, 1<<16)
+	for len(resp) < 8<<20 {
+		n, err := c.Read(buf)
+		resp = append(resp, buf[:n]...)
+		if err != nil {
+			break
+		}
+	}
+	if !strings.HasPrefix(string(resp), "HTTP/1.1 200") {
+		return "answered " + clip(strconv.QuoteToASCII(string(resp)), 80)
+	}
+	if !strings.Contains(string(resp), "tile38_") {
+		return "200 without tile38 metrics"
+	}
+	return ""
+}
+
 // bystanderBudget is how long the bystander waits for one reply before the
 // server is examined for a stuck command (a goroutine dump decides, not the
 // clock alone).
@@ -433,6 +487,15 @@ func (g *guard) check() verdict {
 		step("FSET canary", func(v t38.Value) bool { return v.Kind == ':' }, "FSET", canaryKey, "c", "speed", "7")
 	}
 	step("GET canary", func(v t38.Value) bool { return v.Equal(g.want) }, "GET", canaryKey, "c", "WITHFIELDS")
+	// every 8th input (and the first ones after a start) the bystander also scrapes /metrics
+	if problem == "" && g.metricsAddr != "" && (g.inputs <= 2 || g.inputs%8 == 0 || g.alwaysScrape) {
+		g.scrapes++
+		if p := scrapeMetrics(g.metricsAddr); p != "" {
+			problem = "bystander-disconnected: metrics scrape: " + p
+			// the registry panics on its own goroutine: give the process a moment to die
+			time.Sleep(100 * time.Millisecond)
+		}
+	}
 	if problem == "" && g.p.Alive() {
 		// a panicking process keeps serving other goroutines while it prints its
 		// traceback: look at its stderr before calling the input harmless
@@ -857,6 +920,7 @@ func TestC16_Probes(t *testing.T) {
 	oldBudget := bystanderBudget
 	bystanderBudget = 3 * time.Second
 	defer func() { bystanderBudget = oldBudget }()
+	g.alwaysScrape = true // every probe is followed by a /metrics scrape
 	var gNoAOF *guard
 	defer func() {
 		if gNoAOF != nil {
@@ -873,6 +937,7 @@ func TestC16_Probes(t *testing.T) {
 		if k.noAOF {
 			if gNoAOF == nil {
 				gNoAOF = newGuardOpt(t, c, true)
+				gNoAOF.alwaysScrape = true
 			}
 			g = gNoAOF
 		}
@@ -1177,6 +1242,10 @@ func minimizeBytes(b []byte, still func(fuzzInput) bool) fuzzInput {
 // ---- hostile arguments ---------------------------------------------------------------
 
 var poolKeys = []string{"k1", "k2", "k3"}
+
+// hostileKeys: legal collection names that are awkward for whoever renders them
+// (metrics labels, JSON, logs): invalid UTF-8, NUL, glob and quote characters.
+var hostileKeys = []string{"fleet\xff", "\xfe\xfe", "k\x00z", "\xe9t\xe9", "k*[", "k\"q", "k\nl", strings.Repeat("K", 300)}
 var poolIDs = []string{"a", "b", "c", "d", "missing"}
 var poolFields = []string{"f", "g", "h", "z"}
 
@@ -1351,7 +1420,12 @@ func searchOpts(rt *rapid.T) []string {
 
 // template draws a well-formed command of the table.
 func template(rt *rapid.T, depth int) []string {
-	k := func() string { return rapid.SampledFrom(poolKeys).Draw(rt, "k") }
+	k := func() string {
+		if rapid.IntRange(0, 9).Draw(rt, "hostilekey") == 0 {
+			return rapid.SampledFrom(hostileKeys).Draw(rt, "hk")
+		}
+		return rapid.SampledFrom(poolKeys).Draw(rt, "k")
+	}
 	id := func() string { return rapid.SampledFrom(poolIDs).Draw(rt, "id") }
 	f := func() string { return rapid.SampledFrom(poolFields).Draw(rt, "f") }
 	cat := func(xs ...[]string) []string {
